@@ -911,6 +911,11 @@ func protocolFacts() {
 	}
 	iApp2 := strings.Index(fab, "if err := fc.wal.AppendAsync(req.GetEntry()); err != nil { return err }")
 	iCnt := strings.Index(fab, "fc.lastAppendedOffset = req.Entry.Offset")
+	// a re-delivered entry (offset at or below the last appended one) is acknowledged at once only when it is
+	// among the synced entries; otherwise the sync goroutine is woken and acknowledges it after the sync
+	add("followerAcksDuplicateOnlyWhenSynced", "Bool", boolLean(strings.Contains(fab,
+		"if req.Entry.Offset <= fc.lastAppendedOffset { if req.Entry.Offset > fc.wal.LastOffset() { fc.unsyncedDuplicates = append(fc.unsyncedDuplicates, req.Entry.Offset) fc.syncCond.Signal() return nil }")),
+		"server/follower_controller.go: (*followerController).append", "duplicate branch: not yet synced -> left to the sync goroutine, which acknowledges it after the sync")
 	add("followerCountsEntryAfterWalAppend", "Bool", boolLean(iApp2 >= 0 && iCnt > iApp2 && strings.Count(fab, "fc.lastAppendedOffset = ") == 1),
 		"server/follower_controller.go: (*followerController).append", fmt.Sprintf("WAL append at %d, lastAppendedOffset set at %d", iApp2, iCnt))
 }
